@@ -35,8 +35,8 @@ type TaskPlan struct {
 }
 
 type PreemptFrac struct {
-	Frac   int `json:"frac"` // per-mille of the estimated total step count
-	Choice int `json:"choice"`
+	Step   int64 `json:"step"` // global step (library function entries summed over tasks) at which to switch
+	Choice int   `json:"choice"`
 }
 
 type C17Plan struct {
@@ -87,9 +87,14 @@ func genTaskOp(r *core.Rand, o gen.Opts, nShared int, pool int, hot *TaskOp) Tas
 	}
 	t := TaskOp{Kind: indepKinds[r.Intn(len(indepKinds))]}
 	idents := []string{"cpu", "my m", "select", "a.b", "host", "from", "time", "x y", "\"q\"", "_ok", "9x", "", "usage_idle", "FIELD", "é"}
+	salt := fmt.Sprintf("%x", r.U64()&0xffffff)
 	switch t.Kind {
 	case "parse-query":
 		t.Text = core.RawStr(gen.Query(r, o))
+		if r.Chance(1, 3) {
+			// a literal no earlier run of this process has seen: lazily filled caches stay cold for it
+			t.Text = core.RawStr("SELECT f" + salt + " FROM m WHERE t =~ /" + salt + "/ AND \"i " + salt + "\" = 's" + salt + "'; ") + t.Text
+		}
 	case "parse-stmt", "print-own":
 		t.Text = core.RawStr(gen.Statement(r, o))
 	case "parse-expr":
@@ -98,6 +103,9 @@ func genTaskOp(r *core.Rand, o gen.Opts, nShared int, pool int, hot *TaskOp) Tas
 		t.Text = core.RawStr(r.Pick([]string{"a", "it's", "a\\b", "x\ny", "", "select"}))
 	case "quote-ident", "needs-quotes", "lookup":
 		t.Text = core.RawStr(r.Pick(idents))
+		if r.Chance(1, 4) {
+			t.Text += core.RawStr(r.Pick([]string{"", " ", "."}) + salt)
+		}
 		if r.Chance(1, 3) {
 			t.Text += core.RawStr("\x1f" + r.Pick(idents)) // second segment for QuoteIdent
 		}
@@ -138,9 +146,14 @@ func (C17) NewPlan(r *core.Rand, tier string, i uint64) interface{} {
 	}
 	p.First = r.Intn(nTasks)
 	for k := r.Weighted([]int{1, 2, 3, 3, 3, 2, 2, 1, 1, 1, 1, 1, 1}); k > 0; k-- {
-		p.Preempts = append(p.Preempts, PreemptFrac{Frac: r.Intn(1000), Choice: r.Intn(8)})
+		// log-uniform over 1..30000 steps: operations take between a handful and thousands of steps
+		st := int64(1)
+		for e := r.Float() * 4.5; e > 0; e -= 0.25 {
+			st = st*178/100 + 1
+		}
+		p.Preempts = append(p.Preempts, PreemptFrac{Step: st + int64(r.Intn(7)), Choice: r.Intn(8)})
 	}
-	sort.Slice(p.Preempts, func(a, b int) bool { return p.Preempts[a].Frac < p.Preempts[b].Frac })
+	sort.Slice(p.Preempts, func(a, b int) bool { return p.Preempts[a].Step < p.Preempts[b].Step })
 	p.Order = []verifhook.OrderPolicy{{Kind: verifhook.OrderAsc}, {Kind: verifhook.OrderDesc}, {Kind: verifhook.OrderShuffle, Arg: r.U64()}}[r.Intn(3)]
 	return p
 }
@@ -335,30 +348,11 @@ func (C17) Exec(pi interface{}) *core.RunResult {
 	verifhook.SetOrder(p.Order)
 	defer verifhook.SetOrder(verifhook.OrderPolicy{})
 
-	// sequential twin: every operation alone, on a fresh parse, same service plans
-	twin := make([][]opResult, n)
-	var total int64
-	for t := 0; t < n; t++ {
-		twin[t] = make([]opResult, len(p.Tasks[t].Ops))
-		ctx := newOpCtx(&p.Tasks[t].Env)
-		for k := range p.Tasks[t].Ops {
-			sh := parseShared(p.Shared)
-			op := &p.Tasks[t].Ops[k]
-			var out string
-			verifhook.BeginOp(opBudget)
-			pan := core.Guard(func() { out = runTaskOp(op, ctx, sh) })
-			steps := verifhook.EndOp()
-			twin[t][k] = opResult{out, pan, steps}
-			total += steps + 1
-		}
-	}
-	res.Steps += total
-
 	// concurrent phase
 	shared := parseShared(p.Shared)
 	var pre []verifhook.Preempt
 	for _, f := range p.Preempts {
-		pre = append(pre, verifhook.Preempt{Step: 1 + int64(f.Frac)*total/1000, Choice: f.Choice})
+		pre = append(pre, verifhook.Preempt{Step: f.Step, Choice: f.Choice})
 	}
 	sort.Slice(pre, func(a, b int) bool { return pre[a].Step < pre[b].Step })
 	conc := make([][]opResult, n)
@@ -402,6 +396,28 @@ func (C17) Exec(pi interface{}) *core.RunResult {
 	switches, gsteps := verifhook.SchedTrace()
 	res.Steps += gsteps
 	races := verifhook.RaceErrors() - racesBefore
+
+	// The concurrent phase runs FIRST so that lazily filled process-wide state is as cold as the
+	// process history allows; the reference results are computed afterwards.
+	// sequential twin: every operation alone, on a fresh parse, same service plans
+	twin := make([][]opResult, n)
+	var total int64
+	for t := 0; t < n; t++ {
+		twin[t] = make([]opResult, len(p.Tasks[t].Ops))
+		ctx := newOpCtx(&p.Tasks[t].Env)
+		for k := range p.Tasks[t].Ops {
+			sh := parseShared(p.Shared)
+			op := &p.Tasks[t].Ops[k]
+			var out string
+			verifhook.BeginOp(opBudget)
+			pan := core.Guard(func() { out = runTaskOp(op, ctx, sh) })
+			steps := verifhook.EndOp()
+			twin[t][k] = opResult{out, pan, steps}
+			total += steps + 1
+		}
+	}
+	res.Steps += total
+
 
 	plan := func() string {
 		var b strings.Builder
@@ -519,6 +535,12 @@ func (C17) Exec(pi interface{}) *core.RunResult {
 	}
 	res.Trace = core.Hash64(tr.String() + sw.String())
 	res.States = []uint64{core.Hash64(sw.String())}
+	if d := os.Getenv("VERIF_DEBUG"); d != "" {
+		if f, err := os.OpenFile(fmt.Sprintf("%s.%d", d, os.Getpid()), os.O_APPEND|os.O_CREATE|os.O_WRONLY, 0o644); err == nil {
+			fmt.Fprintf(f, "TRACE %016x switches=%s gsteps=%d results=%q\n", res.Trace, sw.String(), gsteps, tr.String())
+			f.Close()
+		}
+	}
 	return res
 }
 
